@@ -43,6 +43,22 @@ CLAIMED = {
         "(BlockInj) resp. non-zero pivots - the documented precondition; witnessed per executed case "
         "by the model's success flag. Not covered: rounding-error growth without pivoting.",
    technique='Lean 4: block-relaxation refinement + LDL^T induction; exact-rational correspondence with kernel sources'),
+ 'C04': dict(
+   text="Proof (Lean 4, arbitrary field / ordered field, all sizes, all seven coarsening "
+        "patterns): restriction and prolongation are tensor products of 1-D operators; the 3-point "
+        "restriction stencil is the transpose of linear interpolation and 'sum of two children' the "
+        "transpose of piecewise-constant interpolation (induction), hence <restrict r, c> = "
+        "<r, prolong c> for every residual r and every coarse PEC field c, per component; "
+        "prolongation adds, never touches tangential boundary edges, its weights are >= 0 and sum to "
+        "one; the coarse grid is every second node; coarse parameters are sums of children and "
+        "conserve the total. Tie to code: core.restrict and restrict_weights executed exactly vs "
+        "model; solver.restriction / prolongation / RegularGridProlongator / "
+        "_restrict_model_parameters vs model in floats with a computed bound (all 4 anisotropy "
+        "cases); R = P^T assembled from the real functions by basis enumeration.",
+   design='§4 C04',
+   note=TB % 'c04' + "Modelled not verified: NumPy searchsorted/fancy indexing inside "
+        "RegularGridProlongator (compared in floating point).",
+   technique='Lean 4: 1-D adjointness by induction lifted to 3-D tensor products; exact + float correspondence'),
  'C05': dict(
    text="Proof (Lean 4) about the control model MGH.mgTrace of multigrid(): descent invariant "
         "(only even directions >2 are halved, never the semicoarsening direction, the degenerate "
